@@ -276,8 +276,14 @@ func (m *C19Monitor) AfterTx(c *Chain, ctx sdk.Context, tx sdk.Tx, ok bool) {
 			return
 		}
 		if why, ok := allowed[addr]; ok {
-			m.st.Bucket("c19|exception|%s|%s", why, what)
-			return
+			// each exception covers only what the statement names: a dispute's consequences and a fee paid from selected
+			// stake reduce STAKE (delegations, unbonding balances); the removal of a selector changes its SELECTION
+			stakeKind := what == "delegation" || what == "unbonding-balance"
+			if (why == "selector-below-minimum-of-full-reporter" && what == "selection") || (why != "selector-below-minimum-of-full-reporter" && stakeKind) {
+				m.st.Bucket("c19|exception|%s|%s", why, what)
+				return
+			}
+			m.st.Bucket("c19|exception-does-not-cover|%s|%s", why, what)
 		}
 		if c.W.ByAddr[addr] == nil && what == "balance" {
 			return // module accounts move funds as part of the protocol
